@@ -362,7 +362,7 @@ def ref_read_set(fields, omit, rmap):
 class C20(Property):
     id = "C20"
     title = "Dict.slice / update_object / set_by_object move exactly the selected fields"
-    proof_module = "Proofs.C20"
+    proof_module = "Proofs.C20Fail"      # top of the chain C20 <- C20Fail
     theorems = [
         "Flatland.C20.Proofs.slice_spec",
         "Flatland.C20.Proofs.slice_keys",
@@ -376,6 +376,19 @@ class C20(Property):
         "Flatland.C20.Proofs.object_roundtrip_final",
         "Flatland.C20.Proofs.object_roundtrip",
         "Flatland.C20.Proofs.object_roundtrip_sparse",
+        # failure and recovery paths (Proofs/C20Fail.lean)
+        "Flatland.C20.Proofs.sliceP_refines",
+        "Flatland.C20.Proofs.updateObjectP_refines",
+        "Flatland.C20.Proofs.setByObjectP_refines",
+        "Flatland.C20.Proofs.sliceP_ok_iff",
+        "Flatland.C20.Proofs.update_object_atomic_on_selection_error",
+        "Flatland.C20.Proofs.update_object_atomic",
+        "Flatland.C20.Proofs.updateObjectP_atomic",
+        "Flatland.C20.Proofs.lazyUpdate_fails",
+        "Flatland.C20.Proofs.writeAll_split",
+        "Flatland.C20.Proofs.update_object_setattr_error",
+        "Flatland.C20.Proofs.set_by_object_read_error_keeps_element",
+        "Flatland.C20.Proofs.set_by_object_setup_error",
     ]
     level_text = "proof"
     level_note = ("slice_spec / include_omit_exclusive / update_object_frame / set_by_object_reads (C20_full_holds) / set_by_object_values are "
@@ -386,13 +399,26 @@ class C20(Property):
                   "non-strict policy; read back with rename^-1 and no include/omit. Outside these hypotheses the oracle checks only the two "
                   "halves (update_object writes the slice, set_by_object stores the winners), not the composed law. In the model `reads` is the "
                   "candidate list (the code calls hasattr on every candidate); spec outKey restates the three documented rules and is close to "
-                  "the code by nature; member.set() is a parameter (C04)")
+                  "the code by nature; member.set() is a parameter (C04). FAILURE PATHS (h10): the model carries key functions that raise / return "
+                  "unhashable keys, unusable include/omit/rename, objects rejecting a setattr and attribute reads that raise (…P functions, proved equal "
+                  "to the total ones when nothing raises: sliceP_refines, updateObjectP_refines, setByObjectP_refines); proved for all inputs: "
+                  "sliceP_ok_iff (a slice exists iff the arguments are usable and the key function accepts EVERY field), "
+                  "update_object_atomic_on_selection_error / update_object_atomic (no slice -> the object is untouched), lazyUpdate_fails (the "
+                  "interleaved select-one-write-one variant violates it), update_object_setattr_error + writeAll_split (a rejected setattr: frame, "
+                  "rejected attribute unchanged, every selected attribute old-or-new, writes = the prefix of the slice before the first rejected name), "
+                  "set_by_object_read_error_keeps_element / set_by_object_setup_error (a raising read or unusable argument leaves the element as it was). "
+                  "The oracle states (a) atomicity on a selection error, (b) for a rejected setattr only what the text determines, (c) element untouched "
+                  "after a raising read, and judges a second, narrower call against the state the first one left")
     technique = "Lean 4 theorems about a hand-written model + differential correspondence with /repo + Python oracle of spec B"
     trusted_base = [
-        "Python objects modelled as attribute stores (plain attributes and properties whose getter returns or raises AttributeError); "
-        "getters raising other exceptions, __slots__, read-only properties are not modelled",
-        "key functions are arbitrary total functions Str -> Str in the theorems; the correspondence runs a fixed family "
-        "(identity, ASCII upper, prefix add/strip, constant, reverse)",
+        "Python objects modelled as attribute stores (plain attributes and properties whose getter returns, raises AttributeError or raises "
+        "another exception) plus a function telling which setattr the object rejects and with what (read-only property, __slots__, __setattr__); "
+        "objects whose setattr has other side effects (setters touching other attributes, observable double assignment) are not modelled",
+        "key functions are arbitrary functions Str -> (Str or exception) in the theorems; an unhashable result is modelled as TypeError at that "
+        "field (raised by `key in rename/include/omit` or by dict(sliced), all inside slice()); the correspondence runs a fixed family "
+        "(identity, ASCII upper, prefix add/strip, constant, reverse, partial lookup table, raise-on-names, unhashable-on-names)",
+        "exception classes of unusable arguments (set() of an unhashable member / a non-iterable: TypeError; dict() of a pair that does not "
+        "unpack: ValueError) are Python built-in behaviour, tabulated in MALFORMED and in Run/C20.lean parseSetup",
         "member.set(x).value is a parameter of the model (setF); the runner instantiates it with the scalar model of C04 "
         "(String, Integer, Boolean, Date, Time, DateTime, Enum members; None/str/int/bool/float/Decimal/date/time/datetime values)",
         "Python's sorted() on distinct str keys = insertion sort by code point; dict insertion/overwrite semantics",
@@ -400,13 +426,25 @@ class C20(Property):
     assumptions = [
         "field names, include/omit members, rename keys and values are str; rename is a dict or a list of 2-tuples",
         "Dict and SparseDict(minimum_fields=None); members are scalars",
+        "left open by the text, therefore not asserted by the oracle (the correspondence with the model still pins the code's behaviour): when a "
+        "setattr raises, WHICH of the other selected attributes are already written (the code writes in dict order of the slice = sorted field "
+        "order, and stops at the first rejected name); when several fields / reads fail with different exception classes, which class comes out "
+        "(the first in sorted order); the exception class for unusable include/omit/rename forms",
+        "a strict-policy rejection inside set_by_object (self.set(final) raises after its reset) is not a 'read that raises': the element is "
+        "reset there, as modelled since g6 (dictSetValue); clause (c) is about exceptions raised before self.set is reached",
     ]
     rule = ("Dict schemas of 1-5 fields (70% String/String(strip=False)/Integer, 30% Boolean/Date/Time/DateTime/unsigned %04i Integer/Enum) with names from a pool (ASCII, case variants, "
             "prefix-related, non-ASCII), member values None/str/int/bool incl. padded and unadaptable (rich kinds: kind-appropriate texts, floats, Decimals, native dates/times); op in slice/update_object/"
             "set_by_object/roundtrip; include/omit each None, [] or 1-3 names (known, unknown, overlapping rename; 8% both -> TypeError); "
             "rename None/{}/dict/list/tuple/generator of pairs/keys()-only mapping with sources and targets from fields+pool (collisions, chains, duplicate sources at low rate); "
             "key function None or one of 7; objects with plain/property-backed/raising/absent attributes; policy subset/strict/duck; 15% SparseDict with each member "
-            "present with probability 0.6. "
+            "present with probability 0.6. FAILURE STREAM (30% of slice/update/setby cases): key function = lookup table without an entry for the "
+            "first/middle/last field in sorted order (KeyError), raise-on-names (TypeError/ValueError/KeyError/AttributeError), unhashable-key-on-names, "
+            "each optionally over upper / prefix-add and combined with rename/include/omit; include/omit/rename in unusable forms (unhashable member, "
+            "non-iterable, 3-tuples, 1-tuples, 3-char strings, unhashable source); objects rejecting the setattr of the first/middle/last attribute "
+            "the call writes (read-only property, __slots__ without the name, __setattr__ raising AttributeError/ValueError/TypeError) or of an "
+            "unrelated name; for set_by_object properties whose getter raises ValueError/TypeError/KeyError at the first/middle/last candidate; "
+            "60% followed by a second, narrower call on the same object / element (recovery). "
             "non-trivial = no exception and at least one of include/omit/rename/key supplied and a non-empty selection")
     exhaustive_note = ("fields {a:str, b:int}; include, omit in {None, [], [a], [b], [a,b], [zz]}; rename in {None, a->b, a->z, z->a, "
                        "swap a<->b, chain z->a,y->z}; op in slice/update/setby; key in {None, upper} for slice/update")
@@ -451,6 +489,37 @@ class C20(Property):
             {"op": "roundtrip", "fields": f, "policy": "subset", "include": ["a"], "omit": None,
              "rename": {"as": "dict", "pairs": [["b", "bee"]]}, "key": None, "obj": [],
              "args2": {"include": None, "omit": None, "rename": {"as": "dict", "pairs": [["bee", "b"]]}}},
+        ] + self._failure_corpus()
+
+    def _failure_corpus(self):
+        """Witnesses of seeded/C20-update-object-lazy-pairs (update_object iterating the lazy keyslice_pairs) and
+        one case per failure kind."""
+        f3 = [{"name": "city", "kind": "str", "value": {"s": "Oslo"}}, {"name": "name", "kind": "str", "value": {"s": "Ann"}},
+              {"name": "zip", "kind": "str", "value": {"s": "0150"}}]
+        rec = [{"name": "town", "prop": False, "present": True, "value": {"s": "Bergen"}},
+               {"name": "note", "prop": False, "present": True, "value": {"s": "keep me"}}]
+        base = {"op": "update", "fields": f3, "policy": "subset", "include": None, "omit": None, "rename": None, "key": None, "obj": rec}
+        zip_only = {"include": ["zip"], "omit": None, "rename": {"as": "dict", "pairs": [["zip", "postcode"]]}, "key": None}
+        return [
+            # the demo: a field-name -> attribute-name table with no entry for the field that sorts last; then a narrower call
+            dict(base, key={"fn": "table", "map": [["city", "town"], ["name", "full_name"]]}, then=zip_only),
+            # an unhashable transformed key together with rename (TypeError from `key in rename`) on the middle field
+            dict(base, key={"fn": "unhash_on", "names": ["name"], "base": None}, rename={"as": "dict", "pairs": [["city", "town"]]},
+                 then=zip_only),
+            dict(base, key={"fn": "raise_on", "names": ["zip"], "exc": "ValueError", "base": {"fn": "upper"}}),
+            dict(base, op="slice", obj=[], key={"fn": "table", "map": [["city", "town"]]}),
+            dict(base, malformed={"arg": "rename", "form": "triple"}),
+            dict(base, malformed={"arg": "include", "form": "unhashable-member"}, omit=["zip"]),
+            # a setattr the object rejects: first / middle / last attribute written
+            dict(base, objmode={"kind": "roprop", "names": ["city"]}, then=zip_only),
+            dict(base, objmode={"kind": "setattr", "names": ["name"], "exc": "ValueError"}, then=zip_only),
+            dict(base, objmode={"kind": "slots", "allowed": ["town", "note", "city", "name", "postcode"]}, then=zip_only),
+            # set_by_object: the getter of the middle candidate raises; then the same call without it
+            dict(base, op="setby", obj=[{"name": "city", "prop": False, "present": True, "value": {"s": "Rome"}},
+                                        {"name": "name", "prop": True, "present": False, "value": None, "raises": "ValueError"},
+                                        {"name": "zip", "prop": False, "present": True, "value": {"s": "00100"}}],
+                 then={"include": None, "omit": ["name"], "rename": None, "key": None}),
+            dict(base, op="setby", malformed={"arg": "rename", "form": "str3"}),
         ]
 
     def exhaustive(self, tier):
@@ -951,6 +1020,9 @@ class C20(Property):
         return None
 
     def nontrivial(self, case, obs):
+        if _failure_kinds(case):
+            # a failure-path case is non-trivial when the failure was reached, or a recovery call ran
+            return bool(obs.get("exc")) or "exc2" in obs
         if obs.get("exc"):
             return False
         supplied = any(case.get(k) for k in ("include", "omit", "key")) or bool(case.get("rename") and case["rename"]["pairs"])
@@ -1000,9 +1072,41 @@ class C20(Property):
             t.append("obj-has-property")
         if any(a.get("prop") and not a["present"] for a in case.get("obj", [])):
             t.append("obj-has-raising-property")
+        fk = _failure_kinds(case)
+        for k in fk:
+            t.append("fail=" + k)
+        if fk:
+            t.append("fail-outcome=%s/%s" % (case["op"], obs.get("exc")))
+            if "exc2" in obs:
+                t.append("recovery=%s/%s-then-%s" % (case["op"], obs.get("exc"), obs.get("exc2")))
+            srt = sorted(f["name"] for f in case["fields"])
+            bad = [n for n in srt if not ref_keyed(case.get("key"), n)[0]] if case["op"] != "setby" else []
+            if bad:
+                i = srt.index(bad[0])
+                t.append("key-fails-at=%s" % ("only" if len(srt) == 1 else "first" if i == 0 else "last" if i == len(srt) - 1 else "middle"))
+            if case["op"] == "update" and case.get("objmode") and obs.get("exc") and not bad and not case.get("malformed"):
+                before = {a["name"] for a in case.get("obj", []) if a["present"]}
+                written = [k for k, _ in obs["obj"] if k not in before]
+                t.append("setattr-fails-after-new-attrs=%d" % min(len(written), 3))
+            if case["op"] == "setby" and obs.get("exc") and obs.get("reads"):
+                t.append("read-fails-after-reads=%d" % min(len(obs["reads"]) - 1, 3))
         return t
 
     def shrink_candidates(self, case):
+        for k in ("then", "objmode", "malformed"):
+            if case.get(k) is not None:
+                c = copy.deepcopy(case)
+                del c[k]
+                yield c
+        if case.get("key") and case["key"].get("base"):
+            c = copy.deepcopy(case)
+            c["key"]["base"] = None
+            yield c
+        for i, a in enumerate(case.get("obj", [])):
+            if a.get("raises"):
+                c = copy.deepcopy(case)
+                del c["obj"][i]["raises"]
+                yield c
         for i in range(len(case["fields"])):
             if len(case["fields"]) > 1:
                 c = copy.deepcopy(case)
@@ -1055,6 +1159,20 @@ class C20(Property):
                 c = copy.deepcopy(case)
                 c["fields"][i]["kind"] = "str"
                 yield c
+
+
+def _failure_kinds(case):
+    out = []
+    k = case.get("key")
+    if k and k["fn"] in ("table", "raise_on", "unhash_on"):
+        out.append("key-" + k["fn"] + ("-" + k["exc"] if k["fn"] == "raise_on" else ""))
+    if case.get("malformed"):
+        out.append("malformed-%s-%s" % (case["malformed"]["arg"], case["malformed"]["form"]))
+    if case.get("objmode"):
+        out.append("setattr-" + case["objmode"]["kind"])
+    if any(a.get("raises") for a in case.get("obj", [])):
+        out.append("read-raises")
+    return out
 
 
 _MISSING = object()
